@@ -193,9 +193,21 @@ blocks.append(f"""//@ pred DataHas(i, k, v) := out[i].Data != nil && has(jsonmap
 //@   |       ctr("unknown", "failure") == old(ctr("unknown", "failure")) + 1 || ctr("ssh-cert", "failure") == old(ctr("ssh-cert", "failure")) + 1)
 //@   ensures[nokw] !Keyword(config.logEntry) ==> ctrsum == old(ctrsum) && len(out) == {N}
 
+//@ pred SshdOK(p) := p != nil && cast(p, "*processors/sshd.SshdProcessorer").metrics != nil && cast(p, "*processors/sshd.SshdProcessorer").eventW != nil
+//@   | && cast(p, "*processors/sshd.SshdProcessorer").metrics.remoteLogins != nil
+//@ ghost g_sshd_calls : Int
+//@ ghost g_sshd_pid : String
+//@ ghost g_sshd_msg : String
+//@ ghost g_sshd_ctx : Int
+
 //@ func (*SshdProcessorer).ProcessSshdLogEntry
 //@   requires s != nil && s.metrics != nil && s.metrics.remoteLogins != nil && s.eventW != nil && ctx != nil
-//@   modifies out, ctr, chans
+//@   ghost g_sshd_calls := g_sshd_calls + 1
+//@   ghost g_sshd_pid := sm.PID
+//@   ghost g_sshd_msg := sm.Message
+//@   ghost g_sshd_ctx := ctx
+//@   modifies out, ctr, chans, g_sshd_calls, g_sshd_pid, g_sshd_msg, g_sshd_ctx
+//@   ensures[traced] g_sshd_calls == old(g_sshd_calls) + 1 && g_sshd_pid == sm.PID && g_sshd_msg == sm.Message && g_sshd_ctx == ctx
 //@   allocates
 //@   ensures[err] result != nil ==> wfailed && len(out) == {N} && sentlen(s.logins) == old(sentlen(s.logins))
 //@   ensures[one] len(out) == {N} || len(out) == {N} + 1
